@@ -497,7 +497,7 @@ def run(rep, tier, seed):
     # proved equal to the model's readFromStreamRaw / read-n primitive (Props/C05 source_read_turn_is_model,
     # source_underrun_only_when_missing); the translation is run against the real generator here
     from harness import kernels
-    kernels.obligations(rep, ['readTurn'])
+    kernels.obligations(rep, ['readTurn', 'eosTurn'])
     kernels.check(rep, drv, seed, 400 if tier == 'quick' else 20000, which=('readTurn',))
     limit = 11 if tier == 'quick' else 16
     rep.rule = ('streams s = e1..en of valid BER/CER/DER encodings (fixed shapes: long tag, long length, end-of-octets, BIT STRING, '
